@@ -42,13 +42,14 @@ CFG = {
                   NonVecKinds={"nu", "dua", "x", "xdab"}, ScalK2={"zero", "one"}, ScalK1={"zero", "one", "y", "yinv"},
                   ScalK0={"one", "y", "my2", "m1", "dab"}, Assigns=vx.ASSIGNS),
     "thorough": dict(TermKinds=_kinds(U_COEFS, OTHERS_MORE), MaxTerms=4, MaxU=2, Forms={"expr", "eqL", "eqU", "eqO"},
-                     ApplyFns={"dota", "twice", "plusu", "norm", "crossb"}, ApplyMaxTerms=3,
+                     ApplyFns={"dota", "twice", "plusu", "norm", "crossb"}, ApplyMaxTerms=2,
                      NonVecKinds={"nu", "dua", "x", "xdab"}, ScalK2={"zero", "one", "y"},
                      ScalK1={"zero", "one", "y", "yinv", "dab", "two"},
                      ScalK0={"one", "y", "my2", "m1", "dab", "duu", "zero"}, Assigns=vx.ASSIGNS),
 }
 INVARIANTS = ["TypeOK", "MoveNegates", "Equivalent", "Solution", "RefusalRule"]
-ORDERS = {"quick": [(0, 1, 2, 3), (2, 1, 0, 3)], "thorough": None}
+ORDERS = {"quick": [(0, 1, 2, 3), (2, 1, 0, 3)], "thorough": [(0, 1, 2, 3), (2, 1, 0, 3), (1, 2, 0, 3)]}
+SHARDS = {"quick": 2, "thorough": 8}
 LIMIT_S = 20
 NAMES = {1: "u", 2: "a", 3: "b", 4: "c"}
 
@@ -289,20 +290,34 @@ def main() -> int:
         return replay_file(sys.argv[2])
     run = Run(PID, tier)
     _init()
-    orders = ORDERS[tier] or vx.covering_orders(6)[:6]
+    orders = ORDERS[tier]
     consts = CFG[tier]
     bounds = {k: (sorted(v) if isinstance(v, (set, frozenset)) else v) for k, v in consts.items() if k != "Assigns"}
     with Scratch() as sc, make_pool() as pool:
         vx.copy_specs(sc)
-        cmap = vx.mc_module(sc, "VecSolve", "MC_solve", consts)
-        # one run: invariants of the model + emission of every shape (workers=1: clean stdout).
-        # no -coverage here: TLC's cost model duplicates the evaluator's operator tree per call site and runs out of
-        # memory on this specification (measured, 8 GB); action coverage is reported from the emitted shapes instead
-        cfg2 = write_cfg(sc / "solve.cfg", constants=cmap, invariants=INVARIANTS + ["Emit"])
-        res2 = run_tlc("MC_solve", cfg2, sc, workers=1, coverage=False, allow_violation=False, spec_dir=sc)
-        run.add_tlc(res2, f"model check + enumeration of the equation shapes: invariants {INVARIANTS}, bounds {bounds}")
+        # invariants of the model + emission of every shape, split over SHARDS[tier] TLC processes (workers=1 each:
+        # clean stdout).  No -coverage: TLC's cost model duplicates the evaluator's operator tree per call site and
+        # runs out of memory on this specification (measured, 8 GB); action coverage is reported from the emitted
+        # shapes instead
+        nsh = SHARDS[tier]
+
+        def shard(i):
+            cm = vx.mc_module(sc, "VecSolve", f"MC_solve{i}", dict(consts, ShardK=nsh, ShardI=i))
+            cfg_i = write_cfg(sc / f"solve{i}.cfg", constants=cm, invariants=INVARIANTS + ["Emit"], constraints=["InShard"])
+            return run_tlc(f"MC_solve{i}", cfg_i, sc, workers=1, coverage=False, allow_violation=False, spec_dir=sc)
+        with ThreadPoolExecutor(max_workers=nsh) as ex:
+            shard_results = list(ex.map(shard, range(nsh)))
+        shapes, seen_shapes = [], set()
+        for i, res2 in enumerate(shard_results):
+            run.add_tlc(res2, f"model check + enumeration of the equation shapes, shard {i}/{nsh}: invariants {INVARIANTS}, "
+                        f"bounds {bounds}")
+            for shape in res2.printed:      # states outside a shard's constraint may still be printed: keep one copy
+                k = json.dumps(shape, sort_keys=True)
+                if k not in seen_shapes:
+                    seen_shapes.add(k)
+                    shapes.append(shape)
+        cmap = vx.mc_module(sc, "VecSolveTrace", "MC_trace", dict(consts, ShardK=1, ShardI=0))
         t_tlc = time.time()
-        shapes = res2.printed
         run.coverage["shapes_emitted"] = len(shapes)
         per_action: dict = {}
         for shape in shapes:
@@ -346,7 +361,6 @@ def main() -> int:
         t_replay = time.time()
         run.coverage["replay_outcomes"] = stats
         run.coverage["refusal_exception_types"] = refusals
-        vx.mc_module(sc, "VecSolveTrace", "MC_trace", consts)
         run.coverage["distinct_trace_records"] = len(records)
         validate_traces(run, sc, records, cmap)
         run.coverage["phase_wall_s"] = {"model": round(t_tlc - run.t0, 1), "replay": round(t_replay - t_tlc, 1),
